@@ -969,7 +969,8 @@ Section U.
   Proof.
     intros HI (B & HB & Hh & Hbo) Hps.
     assert (valid b) as Hv by (right; eauto).
-    unfold store_validated. split; cbn [known best].
+    unfold store_validated. destruct (has_state m b && on_best m b); [done|].
+    split; cbn [known best].
     - apply (I_chain m HI).
     - intros x Hin. destruct (decide (x = b)) as [->|Hne].
       + rewrite lookup_insert. eexists. split; [done|]. done.
@@ -989,14 +990,26 @@ Section U.
       + rewrite lookup_insert_ne by done. apply (I_full m HI).
   Qed.
 
+  Lemma store_validated_lookup m b x :
+    known (store_validated m b) !! x =
+    if has_state m b && on_best m b then known m !! x
+    else if decide (x = b) then Some (KI (Some SFull) true true) else known m !! x.
+  Proof.
+    unfold store_validated. destruct (has_state m b && on_best m b); [done|]. cbn.
+    destruct (decide (x = b)) as [->|Hne]; [by rewrite lookup_insert|by rewrite lookup_insert_ne].
+  Qed.
+  Lemma store_validated_best m b : best (store_validated m b) = best m.
+  Proof. unfold store_validated. by destruct (has_state m b && on_best m b). Qed.
+
   Lemma store_validated_fold batch : ∀ m,
     MInv m → validated_pre batch →
     (∀ b, head batch = Some b → has_state m (par b) = true) →
     MInv (fold_left store_validated batch m) ∧
     best (fold_left store_validated batch m) = best m ∧
     (∀ x, known (fold_left store_validated batch m) !! x = known m !! x ∨
-          (x ∈ batch ∧ known (fold_left store_validated batch m) !! x =
-                         Some (KI (Some SFull) true true))).
+          (x ∈ batch ∧ x ∉ best m ∧
+           known (fold_left store_validated batch m) !! x =
+             Some (KI (Some SFull) true true))).
   Proof.
     induction batch as [|b batch IH]; intros m HI Hpre Hhd; cbn [fold_left].
     { split_and!; try done. by left. }
@@ -1004,69 +1017,63 @@ Section U.
     pose proof (MInv_store_validated m b HI Hb (Hhd b eq_refl)) as HI1.
     destruct (IH (store_validated m b) HI1 Hpre) as (HI2 & Hb2 & Hk2).
     { intros b' Hb'. destruct batch as [|b'' batch]; [done|]. cbn in Hb'. simplify_eq.
-      unfold has_state, store_validated. cbn. by rewrite lookup_insert. }
-    split_and!; try done. intros x. destruct (Hk2 x) as [E|[Hin E]].
-    - rewrite E. unfold store_validated. cbn. destruct (decide (x = b)) as [->|Hne].
-      + right. rewrite lookup_insert. split; [apply elem_of_cons; auto|done].
-      + left. by rewrite lookup_insert_ne.
-    - right. split; [by apply elem_of_cons; right|done].
+      unfold has_state. rewrite store_validated_lookup.
+      destruct (has_state m (par b') && on_best m (par b')) eqn:E.
+      - apply andb_true_iff in E as [E _]. exact E.
+      - by rewrite decide_True. }
+    rewrite store_validated_best in Hb2. split_and!; try done.
+    intros x. destruct (Hk2 x) as [E|(Hin & Hnb & E)].
+    - rewrite E, store_validated_lookup.
+      destruct (has_state m b && on_best m b) eqn:Hsk; [by left|].
+      destruct (decide (x = b)) as [->|Hne]; [|by left].
+      right. split_and!; [apply elem_of_cons; auto| |done].
+      by apply off_best.
+    - right. rewrite store_validated_best in Hnb.
+      split_and!; [by apply elem_of_cons; right|done|done].
   Qed.
 
   Lemma add_validated_spec m batch :
     MInv m → validated_pre batch →
     match add_validated U m batch with
     | (m', out, nt) =>
-      MInv m' ∧ out ≠ Panic ∧ ext [] m m' ∧
+      MInv m' ∧ out ≠ Panic ∧ ext (best m) m m' ∧
       (∀ x, has_hdr m' x = true → has_hdr m x = true ∨ x ∈ batch) ∧
       (nt = true → out = Ok ∧ heavier U (tip m') (tip m) = true) ∧
-      (nt = false → best m' = best m) ∧
-      (∀ x, x ∈ best m → nt = false →
-            known m' !! x = known m !! x ∨
-            (x ∈ batch ∧ known m' !! x = Some (KI (Some SFull) true true)))
+      (nt = false → best m' = best m)
     end.
   Proof.
     intros HI Hpre. unfold add_validated. destruct batch as [|b0 batch'].
-    { split_and!; try done; [by apply ext_refl|auto|auto]. }
+    { split_and!; try done; [by apply ext_refl|auto]. }
     set (batch := b0 :: batch') in *.
     destruct (U !! b0) as [B0|] eqn:HB0.
-    2:{ split_and!; try done; [by apply ext_refl|auto|auto]. }
+    2:{ split_and!; try done; [by apply ext_refl|auto]. }
     destruct (has_state m (parent B0)) eqn:Hps; cbn [negb].
-    2:{ split_and!; try done; [by apply ext_refl|auto|auto]. }
+    2:{ split_and!; try done; [by apply ext_refl|auto]. }
     destruct (store_validated_fold batch m HI Hpre) as (HI1 & Hb1 & Hk1).
     { intros b [= <-]. by rewrite (par_eq _ _ HB0). }
     set (m1 := fold_left store_validated batch m) in *.
-    assert (ext [] m m1) as He1.
-    { intros x k Hk. destruct (Hk1 x) as [E|[_ E]]; rewrite E.
+    assert (ext (best m) m m1) as He1.
+    { intros x k Hk. destruct (Hk1 x) as [E|(_ & Hnb & E)]; rewrite E.
       - exists k. done.
-      - eexists. split; [done|]. cbn. split_and!; eauto. intros Hin. by apply elem_of_nil in Hin. }
+      - eexists. split; [done|]. cbn. split_and!; eauto. intros Hin. done. }
     assert (∀ x, has_hdr m1 x = true → has_hdr m x = true ∨ x ∈ batch) as Hn1.
-    { intros x. unfold has_hdr. destruct (Hk1 x) as [E|[Hin E]]; rewrite E; auto. }
+    { intros x. unfold has_hdr. destruct (Hk1 x) as [E|(Hin & _ & E)]; rewrite E; auto. }
     pose proof (maybe_reorg_spec m1 (List.last batch b0) HI1) as Hr.
     assert (tip m1 = tip m) as Ht1 by (unfold tip; by rewrite Hb1).
     destruct (maybe_reorg U m1 (List.last batch b0)) as [[m' out] nt].
-    assert (∀ m', upg m1 m' → ext [] m m' ∧
-              (∀ x, has_hdr m' x = true → has_hdr m x = true ∨ x ∈ batch) ∧
-              (∀ x, x ∈ best m → known m' !! x = known m !! x ∨
-                 (x ∈ batch ∧ known m' !! x = Some (KI (Some SFull) true true)))) as Hup.
-    { intros m2 Hu. split_and!.
-      - eapply ext_trans; [exact He1|]. eapply ext_nil. by apply upg_ext.
-      - intros x Hx. apply Hn1. by rewrite <- (upg_hdr m1 m2).
-      - intros x Hin. rewrite <- Hb1 in Hin.
-        assert (known m2 !! x = known m1 !! x) as ->.
-        { destruct (I_best m1 HI1 x Hin) as (k & Hk & _).
-          destruct (upg_ext m1 m2 HI1 Hu x k Hk) as (k' & Hk' & _ & _ & _ & _ & Heq).
-          rewrite Hk', Hk. f_equal. auto. }
-        apply Hk1. }
+    assert (∀ m', upg m1 m' → ext (best m) m m' ∧
+              (∀ x, has_hdr m' x = true → has_hdr m x = true ∨ x ∈ batch)) as Hup.
+    { intros m2 Hu. split.
+      - eapply ext_trans; [exact He1|]. rewrite <- Hb1. by apply upg_ext.
+      - intros x Hx. apply Hn1. by rewrite <- (upg_hdr m1 m2). }
     destruct out.
-    - destruct Hr as (HI' & Hu & Hc). destruct (Hup _ Hu) as (? & ? & ?). split_and!; try done.
+    - destruct Hr as (HI' & Hu & Hc). destruct (Hup _ Hu) as (? & ?). split_and!; try done.
       + intros ->. destruct Hc as [(_ & Hh & Ht')|(? & _)]; [|done]. split; [done|]. by rewrite Ht', <- Ht1.
       + intros ->. destruct Hc as [(? & _)|(_ & _ & ->)]; done.
-      + auto.
-    - destruct Hr as (-> & HI' & Hu & Hb' & _). destruct (Hup _ Hu) as (? & ? & ?).
-      split_and!; try done; [|auto]. intros _. congruence.
+    - destruct Hr as (-> & HI' & Hu & Hb' & _). destruct (Hup _ Hu) as (? & ?).
+      split_and!; try done. intros _. congruence.
     - done.
   Qed.
-
 
   (** ** PruneBlocks keeps the invariant *)
   Lemma best_at_elem m h b : best_at m h = Some b → b ∈ best m.
@@ -1174,7 +1181,8 @@ Section U.
       by eapply ext_nil.
     - pose proof (add_validated_spec m l HI Hpre) as H.
       destruct (add_validated U m l) as [[m' out] nt].
-      destruct H as (? & ? & ? & ? & ? & ? & ?). split; [left|]; split_and!; done.
+      destruct H as (? & ? & ? & ? & ? & ?). split; [left|]; split_and!; try done.
+      by eapply ext_nil.
     - split; [right|]; split_and!; try done; eauto.
       + by apply MInv_prune_from.
       + intros x Hx. left. unfold prune in Hx. by rewrite prune_from_hdr in Hx.
@@ -1197,6 +1205,7 @@ Section U.
 
   Lemma mrun_inv ops : Forall op_pre ops → MInv (mrun U ops).
   Proof. intros H. apply run_from_inv; [apply MInv_init|done]. Qed.
+
 
   End WithWF.
 End U.
@@ -1247,14 +1256,14 @@ Section Thms.
     validated_pre U l →
     mstep U (mrun U ops) (AddValidated l) = (m', Err, nt) →
     nt = false ∧ best m' = best (mrun U ops) ∧
-    ∀ b, b ∈ best (mrun U ops) →
-      known m' !! b = known (mrun U ops) !! b ∨
-      (b ∈ l ∧ known m' !! b = Some (KI (Some SFull) true true)).
+    ∀ b, b ∈ best (mrun U ops) → known m' !! b = known (mrun U ops) !! b.
   Proof.
     intros Hpre E. pose proof (add_validated_spec U HWF _ l best_chain_inv Hpre) as H.
-    cbn [mstep] in E. rewrite E in H. destruct H as (_ & _ & _ & _ & Hn & Hb & Hk).
+    cbn [mstep] in E. rewrite E in H. destruct H as (_ & _ & He & _ & Hn & Hb).
     assert (nt = false) as -> by (destruct nt; [by destruct Hn|done]).
-    split_and!; auto.
+    split_and!; auto. intros b Hin.
+    destruct (I_best U _ best_chain_inv b Hin) as (k & Hk & _).
+    destruct (He b k Hk) as (k' & Hk' & _ & _ & _ & _ & Heq). rewrite Hk, Hk'. f_equal. auto.
   Qed.
 
   Lemma known_monotone o m' out nt :
@@ -1399,17 +1408,17 @@ Module Ex.
     ∃ m', mstep U (mrun U ops3) (AddBlocks [8]) = (m', Err, false).
   Proof. eexists. vm_compute. reflexivity. Qed.
   (** a failed AddValidated that re-stores the body of a pruned best-chain block *)
-  (** a failed AddValidated (its reorg would have to revert the pruned block 5) that
-      re-stores the body of the pruned best-chain block 4 *)
+  (** a failed AddValidated (its reorg would have to revert the pruned block 5); the
+      pruned best-chain block 4 in the batch is skipped, its body is not stored again *)
   Definition ops4 : list mop := ops3 ++ [Prune 4].
   Example ops4_pre : ops_pre U ops4.
   Proof. repeat constructor; vm_compute; eauto 10. Qed.
-  Example validated_restores_body :
+  Example validated_skips_best :
     validated_pre U [4; 9] ∧
     known (mrun U ops4) !! 4 = Some (KI (Some SFull) false false) ∧
     ∃ m', mstep U (mrun U ops4) (AddValidated [4; 9]) = (m', Err, false) ∧
           best m' = [7; 5; 4; 1; 0] ∧
-          known m' !! 4 = Some (KI (Some SFull) true true).
+          known m' !! 4 = Some (KI (Some SFull) false false).
   Proof.
     split; [vm_compute; repeat econstructor|]. split; [vm_compute; reflexivity|].
     eexists. vm_compute. split_and!; reflexivity.
